@@ -62,9 +62,23 @@ def coq_makefile():
         sh("coq_makefile -f _CoqProject -o Makefile", cwd=COQ)
 
 
+def extract_targets():
+    """The compiled modules extract/Extract.v imports (they are not all dependencies of a props file)."""
+    txt = open(os.path.join(EXTRACT, "Extract.v")).read()
+    out = []
+    for lib, mods in re.findall(r"From\s+(FV|FVGen)\s+Require\s+Import\s+([^.]*)\.", txt):
+        for m in mods.split():
+            out.append(("theories/" if lib == "FV" else "gen/") + m + ".vo")
+    return out
+
+
 def coq_build(targets=None, timeout=1500):
-    """Full .vo build (never -vos).  targets: list of .vo paths relative to coq/."""
+    """Full .vo build (never -vos).  targets: list of .vo paths relative to coq/ (the modules the
+    extraction needs are always added)."""
     coq_makefile()
+    if targets is not None:
+        flags = [t for t in targets if t.startswith("-")]
+        targets = flags + [t for t in targets if not t.startswith("-")] + [t for t in extract_targets() if t not in targets]
     cmd = ["make", f"-j{NPROC}"] + (targets or [])
     rc, out = sh(cmd, cwd=COQ, timeout=timeout)
     return rc == 0, out
